@@ -1325,7 +1325,12 @@ class Real(base.SimpleAsn1Type):
     def __normalizeBase10(value):
         m, b, e = value
         while m and m % 10 == 0:
-            m /= 10
+            if isinstance(m, intTypes):
+                # no detour through float: a mantissa of several hundred
+                # digits does not fit into one
+                m //= 10
+            else:
+                m /= 10
             e += 1
         return m, b, e
 
